@@ -16,6 +16,7 @@ CONSTANTS
   CloseConn = TRUE
   HasFallback = TRUE
   AllowClose = TRUE
+  AllowDo = TRUE
   IdleCollects = 1
   RtoChanges = 2
   DeadlineTicks = FALSE
@@ -29,6 +30,7 @@ INVARIANT WritesBounded
 INVARIANT RoutedByID
 INVARIANT ConnOwnership
 INVARIANT GoroutinesGone
+INVARIANT DoNotStuck
 PROPERTY ClosedStartsRefused
 PROPERTY RtoSnapshot
 ACTION_CONSTRAINT PrintEdge
